@@ -313,6 +313,10 @@ def work_integration(chunk):
         elif hist == "resumed-with-fresh-logs":
             m.project.simulate(max_time=2, absence_time_list=list(absence))
             m.project.simulate(max_time=40, absence_time_list=list(absence), initialize_state_info=False, initialize_log_info=True)
+        elif hist == "removed-then-inserted":
+            m.project.simulate(max_time=40, absence_time_list=list(absence))
+            m.project.remove_absence_time_list()
+            m.project.insert_absence_time_list(list(absence))
         elif hist == "stopped-and-continued":
             m.project.simulate(max_time=2, absence_time_list=list(absence))
             m.project.simulate(max_time=40, absence_time_list=list(absence), initialize_state_info=False, initialize_log_info=False)
@@ -382,6 +386,8 @@ def run(tier, seed):
         for hist in ("appended", "resumed-with-fresh-logs", "stopped-and-continued"):
             integ.append((sp, (), False, hist))
             integ.append((sp, (1,), False, hist))
+        for ab in ((1, 3), (2, 5), (1, 2, 6), (4, 5), (0, 2)):
+            integ.append((sp, ab, False, "removed-then-inserted"))
     col.merge(engines.fanout(integ, work_integration, seed=seed))
     meta = {
         "level": "exploration",
